@@ -134,6 +134,9 @@ class Compiler:
             else:
                 raise Unsupported(f"missing arg {p} for {method}")
             self.cur_file = relpath
+            if isinstance(val, tuple) and val and val[0] in ("fnref", "lambda"):
+                env[p] = val  # function references are bound statically
+                continue
             self.emit("assign", fn, loc, val, note=f"bind {p}")
             env[p] = loc
         if fn.args.vararg is not None:
@@ -388,9 +391,7 @@ class Compiler:
         raise Unsupported(f"expression {ast.unparse(e)[:60]}")
 
     def _mangled(self, attr, ctx):
-        if attr.startswith("__") and not attr.endswith("__"):
-            owner = getattr(ctx, "owner", None) or ctx.cls
-            return f"_{owner.name.lstrip('_')}{attr}"
+        # methods are keyed by their source names; private-name mangling is irrelevant for lookup
         return attr
 
     def expr_to(self, e: ast.expr, target: Optional[str], ctx: "Ctx", node) -> None:
@@ -411,6 +412,16 @@ class Compiler:
                         self.emit("assign", node, target, ("getf", rec, e.attr, base))
                     return
             raise Unsupported(f"attribute .{e.attr} of call result")
+        if isinstance(e, ast.Call) and isinstance(e.func, ast.Name) and e.func.id in ctx.model.records:
+            rec = e.func.id
+            vals = {}
+            for k in e.keywords:
+                vals[k.arg] = self.pure_or_tmp(k.value, ctx, node)
+            for i, a in enumerate(e.args):
+                vals[ctx.model.records[rec][i]] = self.pure_or_tmp(a, ctx, node)
+            if target is not None:
+                self.emit("assign", node, target, ("mk", rec, vals))
+            return
         if isinstance(e, ast.Call):
             f = e.func
             # self.method(...)
